@@ -170,6 +170,22 @@ func check(c mcase, fail func(key, msg string)) {
 		}
 		compare("Value.Get", got)
 		unchanged("Value.Get")
+		if mask != nil {
+			// a mask OBJECT its owner used for an earlier read, with other paths then: a read goes by what the mask
+			// says now (a caller may keep one mask message and rewrite its paths from request to request)
+			m2 := &fieldmaskpb.FieldMask{Paths: []string{"default_int32"}}
+			_ = v.Get(resource.WithReadMask(m2))
+			masks.NewResponseFilter(masks.WithFieldMask(m2)).FilterClone(msg)
+			m2.Paths = append([]string{}, mask.Paths...)
+			if p := guarded(func() { got = v.Get(resource.WithReadMask(m2)) }); p != nil {
+				report("panic", fmt.Sprintf("Value.Get panicked: %v", p))
+				return
+			}
+			compare("Value.Get(a mask object used before with other paths)", got)
+			if p := guarded(func() { got = masks.NewResponseFilter(masks.WithFieldMask(m2)).FilterClone(msg) }); p == nil {
+				compare("FilterClone(a mask object used before with other paths)", got)
+			}
+		}
 		// an option given twice: the later one counts, as with every option - also when the later one is "no mask"
 		// (a wrapper that sets its own default projection and then hands on the request's mask, nil included)
 		for _, earlier := range []resource.ReadOption{resource.WithReadPaths(&lib.T{}, "default_int32"), resource.WithReadMask(&fieldmaskpb.FieldMask{}), resource.WithReadMask(nil)} {
